@@ -23,10 +23,10 @@ func init() { register(extractC10Tok) }
 // receive the ctx, plain assignments, the `!found` early return, error tests of the previous line, returns of an error
 // variable) is recorded here in full and printed into Gen/C10Tok.lean (`erc20LegSkipped`); Props/C10.lean compares the
 // list with the reviewed one, so that a new statement kind in handlerERC20Token / convertERC20 is noticed.
-var c10tokSkipped []string
+var c10tokSkipped [][2]string
 
 func (t *c10tokCtx) skip(why string, n ast.Node) {
-	c10tokSkipped = append(c10tokSkipped, why+": "+c09flat(t.c.src(n)))
+	c10tokSkipped = append(c10tokSkipped, [2]string{why, c09flat(t.c.src(n))})
 }
 
 type c10tokCtx struct {
@@ -274,10 +274,10 @@ inductive TOp
 	sb.WriteString("def erc20LegParams : List String := " + leanStrs(params) + "\n")
 	sb.WriteString("def erc20Leg : List TOp := " + leanList(wrapOps(ops)) + "\n\n")
 	sb.WriteString("/-- every statement / call of handlerERC20Token (helpers inlined) the translator passed over without emitting an op, in full -/\n")
-	sb.WriteString("def erc20LegSkipped : List String := [\n  " + strings.Join(func() []string {
+	sb.WriteString("def erc20LegSkipped : List (String × String) := [\n  " + strings.Join(func() []string {
 		var r []string
 		for _, x := range c10tokSkipped {
-			r = append(r, leanStr(x))
+			r = append(r, "("+leanStr(x[0])+", "+leanStr(x[1])+")")
 		}
 		return r
 	}(), ",\n  ") + "]\n\n")
